@@ -50,6 +50,7 @@ type TLCOpts struct {
 	Xss      string
 	Heap     string
 	Continue bool // -continue
+	MaxSetSize int // -maxSetSize (TLC default 1000000)
 }
 
 type TLCResult struct {
@@ -176,6 +177,9 @@ func RunTLC(o TLCOpts) (*TLCResult, error) {
 	}
 	if o.Seed != 0 {
 		args = append(args, "-seed", strconv.FormatInt(o.Seed, 10))
+	}
+	if o.MaxSetSize > 0 {
+		args = append(args, "-maxSetSize", strconv.Itoa(o.MaxSetSize))
 	}
 	if o.Continue {
 		args = append(args, "-continue")
